@@ -17,6 +17,13 @@ let handle (line : string) : string =
       let x = parse_path { s = path; i = 0 } in
       let d = parse_jv { s = data; i = 0 } in
       string_of_bytes ((match cmd with "locate" -> model_locate | "locates" -> model_locate_ses | "first" -> model_first | _ -> model_has) x d)
+  | [("mutate" | "mutate1" | "mutatek" | "mutate1k") as cmd; op; path; data; value] ->
+      let x = parse_path { s = path; i = 0 } in
+      let d = parse_jv { s = data; i = 0 } in
+      let v = parse_jv { s = value; i = 0 } in
+      let o = z_of_int (int_of_string op) in
+      let incl = (cmd = "mutatek" || cmd = "mutate1k") in
+      string_of_bytes ((if cmd = "mutate" || cmd = "mutatek" then model_mutate else model_mutate_one) incl o x d v)
   | ["match"; eq; data] ->
       let e = parse_eqn { s = eq; i = 0 } in
       let d = parse_jv { s = data; i = 0 } in
